@@ -129,6 +129,8 @@ def culprit(circ, cfg):
         c.append("exp-imaginary-coefficient")
     if m == "adjoint" and circ["lab"] != "std" and ("cRY" in circ["w"] or circ["meas"] == "Ham"):
         c.append("relabelled-wires+nontrainable-parameter")  # constant gate angle or Hamiltonian coefficients
+    if circ.get("bcast") and cfg["iface"] == "jax-jit" and m not in ("backprop", "adjoint"):
+        c.append("trainable-broadcast")  # documented NotImplementedError is replaced by a TypeError under jit
     return "|".join(c) or None
 
 
